@@ -298,6 +298,7 @@ func runC17(t *simrt.Tape, o Opts) Outcome {
 	cfg := schedCfg(t, o, true)
 	var st Stats
 	st.Oracle = map[string]int{}
+	st.Faults = map[string]int{}
 	var viols []world.Violation
 	violate := func(sig, format string, a ...any) {
 		if len(viols) == 0 {
@@ -376,11 +377,31 @@ func runC17(t *simrt.Tape, o Opts) Outcome {
 			if wm>>i&1 == 1 {
 				wrapNodes[r].failGen = !encOnly
 				wrapNodes[r].failEnc = !genOnly
+				if !encOnly {
+					st.Faults["region.generate-data-key-fails"]++
+				}
+				if !genOnly {
+					st.Faults["region.encrypt-fails"]++
+				}
+				if wrapNodes[r].errKind != 0 {
+					st.Faults["region.fails-with-timeout-or-cancel-kind-error"]++
+				}
 			}
 			if um>>i&1 == 1 {
 				unwrapNodes[r].failDec = true
 				unwrapNodes[r].wrongPlain = mode == "wrong-plaintext"
+				if unwrapNodes[r].wrongPlain {
+					st.Faults["region.decrypts-to-other-bytes"]++
+				} else {
+					st.Faults["region.decrypt-fails"]++
+				}
 			}
+			if wrapNodes[r].lat > 0 || unwrapNodes[r].lat > 0 {
+				st.Faults["region.slow"]++
+			}
+		}
+		if cfgRegion != "" {
+			st.Faults["aws-config.region-preset"]++
 		}
 		wrapper, err := build(pair&1 == 1, wrapNodes)
 		if err != nil {
